@@ -27,12 +27,20 @@ def load_corpus():
         m = importlib.util.module_from_spec(spec)
         spec.loader.exec_module(m)
         out.extend(m.VARIANTS)
+    # the breaking changes written by independent sub-agents (seeded/<id>/) must be reported by their property's check
+    import json
+    for d in sorted((VERIF / "seeded").glob("*/meta.json")):
+        meta = json.loads(d.read_text())
+        if meta.get("property") and (d.parent / "patch.diff").exists():
+            out.append(dict(id="seed-" + meta["seed_id"], prop=meta["property"], patch=str(d.parent / "patch.diff"), expect="fire",
+                            note="seeded: " + (meta.get("summary") or "")[:100]))
     return out
 
 
 def apply_edit(root: Path, v):
     if v.get("patch"):
-        r = subprocess.run(["patch", "-p1", "-s", "-d", str(root), "-i", str(HERE / v["patch"])],
+        pth = Path(v["patch"])
+        r = subprocess.run(["patch", "-p1", "-s", "-d", str(root), "-i", str(pth if pth.is_absolute() else HERE / pth)],
                            capture_output=True, text=True)
         if r.returncode != 0:
             return "patch does not apply: " + (r.stdout + r.stderr)[-300:]
